@@ -39,9 +39,9 @@ BUDGET = {"quick": 50, "thorough": 420}
 REQUIRED = ["evaluate_calls", "columns_replayed", "worker_events", "cross_process_comparisons", "multi_worker_calls",
             "independence_checks", "cli_solve_runs", "cli_cross_process_comparisons"]
 
-CONTINUOUS = ["noisy_factory", "noisy_factory_square", "noisy_factory_fixed", "xos", "xos3", "xs", "oxs"]
+CONTINUOUS = ["noisy_factory", "noisy_factory_square", "noisy_factory_fixed", "xos", "xos3", "xs", "oxs", "xs2", "xs3", "xs6", "xos12"]
 DISCRETE = ["factory", "factory_cheerleader_next", "graph_cycle", "k_budget_generator", "covg_fn_generator", "graph_random"]
-SAM_GENS = {"xos", "xos3", "xs", "oxs", "k_budget_generator", "covg_fn_generator"}
+SAM_GENS = {"xos", "xos3", "xs", "oxs", "k_budget_generator", "covg_fn_generator", "xs2", "xs3", "xs6", "xos12"}
 
 _STATE = {"log": None, "jitter": 0.0}
 
@@ -352,11 +352,20 @@ def run(ctx) -> None:
                                "processes": [1, 2, 3] if quick else [1, 2, 3, 5, 8]})
     _STATE["log"] = str(venv.WORK_DIR / f"c12-events-{os.getpid()}.jsonl")
     proc_choices = [1, 2, 5] if quick else [1, 2, 3, 4, 5, 8, 16]
+    # look-ahead solvers on games where a single reveal can end the episode (full-length runs, sequential: cheap)
+    for _ in range(8 if quick else 40):
+        run_config(ctx, {"n": 4, "generator": rng.choice(["xs2", "xs2", "xs3", "k_budget_generator"]), "computer": rng.choice(sut.SA_COMPUTERS),
+                         "gap": rng.choice(list(GAP_FUNCTIONS)), "solver": rng.choice(["greedy_worst", "greedy_worst", "greedy"]),
+                         "seed": rng.randint(0, 10**6), "repetitions": 4, "limit": 16, "budget": None, "processes": [1]})
+        ctx.count("full_length_lookahead_runs")
     i = 0
     while not ctx.out_of_time(10.0):
         i += 1
         solver = ["greedy", "largest", "random", "greedy_worst"][i % 4]
         g = rng.choice(CONTINUOUS if rng.random() < 0.65 else DISCRETE)
+        if solver.startswith("greedy") and rng.random() < 0.5:
+            # games in which ONE reveal can pin down everything else: a look-ahead probe then sees an ended episode
+            g = rng.choice(["xs2", "xs2", "xs3", "xs6", "k_budget_generator", "factory"])
         comp = rng.choice(list(sut.SA_COMPUTERS) + (["sam_apx_1", "sam_apx_10"] if g in SAM_GENS else []))
         n = rng.choice([3, 4, 4]) if solver.startswith("greedy") else rng.choice([3, 4, 4, 5])
         nexp = (1 << n) - n - 2
